@@ -46,7 +46,14 @@ pub fn plug(
                     graph.types()[graph[socket].ty()]
                         .imports
                         .iter()
-                        .find(|(import_name, _)| are_semver_compatible(name, import_name))
+                        .find(|(import_name, _)| {
+                            // An import the plug also exports under its exact name is
+                            // left to that export
+                            !graph.types()[graph[plug].ty()]
+                                .exports
+                                .contains_key(*import_name)
+                                && are_semver_compatible(name, import_name)
+                        })
                         .map(|(import_name, ty)| (import_name.clone(), ty))
                 });
 
